@@ -233,6 +233,40 @@ func b01(b bool) string {
 	return "0"
 }
 
+// recreate runs every batch's Create and File.Create (again) on the real objects and reports the count
+// fields they leave: what the model's [tabulate] computes from the dumped tree.
+func recreate(f *ach.File) (out string) {
+	defer func() {
+		if e := recover(); e != nil {
+			out = "panic"
+		}
+	}()
+	for _, b := range f.Batches {
+		_ = b.Create() // the control is built before the batch is validated
+	}
+	for i := range f.IATBatches {
+		_ = f.IATBatches[i].Create()
+	}
+	if err := f.Create(); err != nil {
+		return "refused"
+	}
+	var cs []string
+	for _, b := range f.Batches {
+		if b.GetHeader().StandardEntryClassCode == ach.ADV {
+			cs = append(cs, strconv.Itoa(b.GetADVControl().EntryAddendaCount))
+		} else {
+			cs = append(cs, strconv.Itoa(b.GetControl().EntryAddendaCount))
+		}
+	}
+	for i := range f.IATBatches {
+		cs = append(cs, strconv.Itoa(f.IATBatches[i].GetControl().EntryAddendaCount))
+	}
+	if f.IsADV() {
+		return fmt.Sprintf("[%s]%d/%d/%d", strings.Join(cs, ","), f.ADVControl.BatchCount, f.ADVControl.BlockCount, f.ADVControl.EntryAddendaCount)
+	}
+	return fmt.Sprintf("[%s]%d/%d/%d", strings.Join(cs, ","), f.Control.BatchCount, f.Control.BlockCount, f.Control.EntryAddendaCount)
+}
+
 func (m measured) line(tab, bounds, noiat bool) string {
 	var ss []string
 	for _, s := range m.segs {
@@ -330,6 +364,24 @@ func advWithIAT(r *rng.R) (f *ach.File) {
 	return f
 }
 
+// advMixed: an ADV file whose f.Batches also holds a standard batch (createFileADV refuses it with ErrFileADVOnly;
+// the writer emits the standard batch's header and control but, the file being ADV, none of its entries).
+func advMixed(r *rng.R) (f *ach.File) {
+	defer func() {
+		if e := recover(); e != nil {
+			f = nil
+		}
+	}()
+	f = gen.FileOfSEC(r, "ADV", gen.Opts{})
+	g := gen.FileOfSEC(r, "PPD", gen.Opts{MinBatches: 1, MaxBatches: 1, Addenda: true})
+	if r.Bool() {
+		f.Batches = append([]ach.Batcher{g.Batches[0]}, f.Batches...)
+	} else {
+		f.AddBatch(g.Batches[0])
+	}
+	return f
+}
+
 // perturb changes one count field of one control record after Create (k selects which); it reports what it did.
 func perturb(r *rng.R, f *ach.File) string {
 	d := 1
@@ -399,7 +451,8 @@ func corr(args []string) {
 		}
 		m := measure(text)
 		dumpCase(cases, f)
-		impl.Printf("%s\n", m.line(tab, inBounds(m), !f.IsADV() || len(f.IATBatches) == 0))
+		noiat := !f.IsADV() || len(f.IATBatches) == 0
+		impl.Printf("%s recreate=%s\n", m.line(tab, inBounds(m), noiat), recreate(f))
 		desc.Printf("%s\n", what)
 		residues[m.records%10]++
 		kinds[strings.SplitN(what, " ", 2)[0]]++
@@ -428,6 +481,11 @@ func corr(args []string) {
 		if i%60 == 11 {
 			if g := advWithIAT(r); g != nil {
 				emit(g, false, true, "adv-with-iat")
+			}
+		}
+		if i%60 == 41 {
+			if g := advMixed(r); g != nil {
+				emit(g, true, false, "adv-mixed-with-standard-batch")
 			}
 		}
 	}
